@@ -2,7 +2,7 @@
 
 STAGE_FILES = {}
 
-LIB = ['Base/Outcome', 'Base/Ctl', 'Base/Bits', 'Base/Finite', 'Base/Tree', 'Base/Machine', 'Impl', 'NonVacuity']
+LIB = ['Base/Outcome', 'Base/Ctl', 'Base/Bits', 'Base/Finite', 'Base/Tree', 'Base/Machine', 'Base/Reach', 'Base/Sim', 'Impl', 'NonVacuity']
 
 def ps2_prop(pid, extra_lib, corr='Corr/Ps2Bits'):
     return {
@@ -93,7 +93,7 @@ def c20_extra(tier, seed, cov, notes, ctx):
     probe = os.path.join(ctx.BUILD, 'probe')
     gj = os.path.join(ctx.COQ, 'Gen', 'gen.json')
     try:
-        n = gen_probe.main(gj, probe)
+        n = gen_probe.main(gj, probe, ctx.REPO)
     except Exception as e:  # noqa
         path = ctx.write_replay('C20', 'unproved', {'property': 'C20', 'kind': 'no-failing-input-found', 'broken': ['probe generation'], 'output': {'gen_probe': repr(e)}})
         return [(path, ' no-failing-input-found')]
@@ -227,7 +227,7 @@ PROPS = {
         'info': ['Spec/ReadmeCheck'],
         'cex_ext': ['Cex/C13_ext', 'Cex/C13s_ext'], 'cex_syn': ['Cex/C13_syn', 'Cex/C13s_syn'],
         'replay_kind': 'c13',
-        'bonus': ['Props/E2E_full'],
+        'bonus': ['Props/E2E_full', 'Props/SetIndep'],
     },
     'C07': {
         'lib': LIB + ['Check/Scan', 'Check/C07'],
